@@ -25,7 +25,7 @@ SPEC = {
     "thorough": {"shards": 16, "time_cap": 1500, "queries": 50000, "idents": 10000},
 }
 FEATS = dict(unqualified=0.75, stars="base-only", cte_cols=True, using=True, window=True, any_sub=False, star_dup_order=False,
-             setops_all=False, nulls_order=True, nested_with=True)
+             setops_all=False, nulls_order=True, nested_with=True, deep_corr=0.3)
 QDIALECTS = ["", "duckdb", "postgres", "snowflake", "mysql", "bigquery", "tsql", "spark", "sqlite", "oracle", "clickhouse", "trino"]
 
 with open(os.path.join(VERIF_DIR, "vf", "spec", "normalization.json")) as _f:
@@ -83,12 +83,43 @@ def enclosing_select(node):
     return p
 
 
+def _in_source_position(s, E):
+    """is select `s` (part of) a FROM / JOIN item or a CTE body of its enclosing select E? Such a query does not see E's
+    own sources (a derived table cannot name itself or its siblings; LATERAL items can)"""
+    from sqlglot import exp
+
+    prev, p = s, s.parent
+    while p is not None and p is not E:
+        prev, p = p, p.parent
+    if p is None:
+        return False
+    if isinstance(prev, (exp.From, exp.With)):
+        return not any(isinstance(x, exp.Lateral) for x in _path(s, prev))
+    if isinstance(prev, exp.Join):
+        # below join.this (the joined item) or below ON / USING?
+        q = s
+        while q.parent is not prev:
+            q = q.parent
+        return q is prev.this and not isinstance(q, exp.Lateral)
+    return False
+
+
+def _path(s, top):
+    p = s
+    while p is not None and p is not top:
+        yield p
+        p = p.parent
+
+
 def visible_sources(select):
     out = set()
-    s = select
+    s, hidden = select, False
     while s is not None:
-        out |= own_sources(s)
-        s = enclosing_select(s)
+        if not hidden:
+            out |= own_sources(s)
+        E = enclosing_select(s)
+        hidden = E is not None and _in_source_position(s, E)
+        s = E
     return out
 
 
